@@ -79,6 +79,10 @@ CORPUS = [
      "inputs": ["#// c\n x r", "# x r", "k r // c"], "tag": "corpus-comment-shared"},
     {"grammar": "Model: B 'q' | 'b';\nB: /[^;\\n]+/ 'x';\nComment: /\\/\\/.*?$/ | /\\/\\*(.|\\n)*?\\*\\//;\n", "opts": {},
      "inputs": ["b//\n/**/", "b // c\n", "b/**/ x q"], "tag": "corpus-comment-model"},
+    {"grammar": "Model: X- 'q' | x=X 'r' | X 's';\nX: 'x' name=ID;\n", "opts": {},
+     "inputs": ["x a r", "x a q", "x a s", "x a t"], "tag": "corpus-suppressed-twin"},
+    {"grammar": "Model: items+=Item;\nItem: Skip | Def;\nSkip: D- 'skip';\nDef: d=D '=' v=INT;\nD: 'let' name=ID (':' t=ID)?;\n", "opts": {},
+     "inputs": ["let a = 1 let b skip", "let a: t skip let c: u = 2", "let a ? 1"], "tag": "corpus-suppressed-twin2"},
     {"grammar": "Model: (x+=X ';' | x+=X '.')#[','] ; X: 'x' | /\\d+/;\n", "opts": {},
      "inputs": ["x ; , 1 .", "1 . , x ;", "x . , x ."], "tag": "corpus-unordered"},
 ]
@@ -166,6 +170,11 @@ def run(chk):
             continue
         d = res["dump"]
         cc, cdep = ctx_constant(d), context_dependent(d)
+        if d.get("cache_alias"):
+            # the Coq model (and the theorem) give every expression its own packrat cache
+            disagreements.append({"case": {"grammar": case["grammar"], "opts": case["opts"]},
+                                  "impl": "distinct parsing expressions share one _result_cache dict: node groups %s" % d["cache_alias"],
+                                  "model": "one cache per node (key = node id, position)"})
         if coq_cls.get(ci) != ("T" if cc else "F") or (cc and cdep):
             disagreements.append({"case": {"grammar": case["grammar"]}, "impl": "classifier ctx_constant=%s context_dependent=%s" % (cc, cdep),
                                   "model": "Coq ctx_constant = %s" % coq_cls.get(ci)})
@@ -201,11 +210,14 @@ def run(chk):
                 if tt.startswith("E:") and (mm["ok"] or mm["err"] != "syntax" or "E:%s" % mm["pos"] != tt):
                     disagreements.append({"case": cinfo, "impl": [tt, mm], "model": "textX-level outcome differs from Arpeggio-level error"})
             # ---- property oracle on the implementation: memoization on == off
+            r_off, r_on = run_["model_off_reused"], run_["model_on_reused"]
             bad = None
             if t_off != t_on:
-                bad = "parse outcome differs: without memoization %s, with memoization %s" % (t_off[:200], t_on[:200])
+                bad = "parse outcome (first parse of a fresh metamodel) differs: without memoization %s, with memoization %s" % (t_off[:200], t_on[:200])
             elif m_off != m_on:
-                bad = "model_from_str differs: without memoization %r, with memoization %r" % (m_off, m_on)
+                bad = "model_from_str (first parse of a fresh metamodel) differs: without memoization %r, with memoization %r" % (m_off, m_on)
+            elif r_off != r_on:
+                bad = "model_from_str (metamodel reused for several inputs) differs: without memoization %r, with memoization %r" % (r_off, r_on)
             if bad:
                 chk.stat("impl: memo changes outcome")
                 tags = (["not_ctx_constant"] if cdep else []) + (["memoizable_comment_model"] if memoizable_comment_model(d) else [])
